@@ -8,8 +8,10 @@ tie 2      : correspondence of Model/Diffusion.v with D._apply on random sequenc
              (from coords * kvalue, ramp (k - shift -> k)) against the b-matrices the implementation hands to
              diffusion_operator, (ii) the state update with the implementation's own exp() factors; (iii) those factors
              against the generated exp(-b:D) by Interval
-oracle     : explicit enumeration of the 3^npulses pathways with exp(-b:D) from Gauss-Legendre quadrature of
-             k(t)^T D k(t) (independent of the package), against operator application and epg.simulate
+oracle     : operators are drawn from per-case pools and REUSED as objects (echo trains, second sequence with other
+             gradient directions on the same objects, simulate() twice); explicit enumeration of the 3^npulses pathways
+             with exp(-b:D) from Gauss-Legendre quadrature of k(t)^T D k(t) (independent of the package), against
+             operator application and epg.simulate; the D objects' instance attributes must be unchanged afterwards
 """
 import itertools, os, re
 import numpy as np
@@ -20,50 +22,95 @@ F = Fraction
 
 
 # ------------------------------------------------------------------ cases
+# A case is a flat list of operator SPECS drawn from small per-case pools (directions, durations, tensors, pulses), so
+# the same S(k) / D(tau, D, k) / T(alpha, phi) occurs several times; with share=True equal specs are ONE operator
+# object (as in `[exc] + [grad, diff, rf, grad, diff] * n`).  A second list ops2 (directions rotated / mirrored) is
+# run afterwards on the same objects, and simulate() is called twice on the same sequence object.
+MODES = {"1d": ("int", 1), "2d-int": ("int", 2), "3d-int": ("int", 3), "3d-float": ("float", 3)}
+KGRID = 1250.0
+
+
+def gen_shift(rng, mode):
+    kind, kdim = MODES[mode]
+    if mode == "1d":
+        return rng.choice([1, 1, 2, -1, 3, -2])
+    while True:
+        if kind == "int":
+            v = [rng.choice([0, 0, 1, -1, 2, -2]) for _ in range(kdim)]
+        else:
+            v = [rng.choice([0, 0, 1, -1, 2, 3, -3, 5]) * 2 * KGRID * rng.choice([1, 1, 2, 0.5]) for _ in range(kdim)]
+        if any(v):
+            return v
+
+
+def neg(k):
+    return -k if isinstance(k, int) else [-x for x in k]
+
+
 def gen_case(rng, quick=True):
-    mode = rng.choice(["1d", "1d", "3d-int", "3d-float"])
-    npulse = rng.randint(1, 4 if mode == "1d" else 3)
-    kdim = 1 if mode == "1d" else 3
-    case = {"mode": mode, "kvalue": 1.0, "kgrid": None, "steps": []}
-    if mode in ("1d", "3d-int"):
+    mode = rng.choice(["1d", "1d", "2d-int", "3d-int", "3d-int", "3d-float", "3d-float"])
+    kind, kdim = MODES[mode]
+    case = {"mode": mode, "kvalue": 1.0, "kgrid": None, "share": rng.random() < 0.75, "twice": rng.random() < 0.5}
+    if kind == "int":
         case["kvalue"] = float(rng.choice([5000, 10000, 20000, 40000]))
     else:
-        case["kgrid"] = 1250.0
-    have3d = False
-    for _ in range(npulse):
-        st = {"alpha": float(rng.choice([20, 35, 50, 70, 90, 110, 130, 155, 180])), "phi": float(rng.choice([0, 15, 40, 90, 135, 200, 270]))}
-        r = rng.random()
-        st["shift"] = None
-        if r < 0.8:
-            if mode == "1d":
-                st["shift"] = rng.choice([1, 1, 2, -1, 3, -2])
-            elif mode == "3d-int":
-                while True:
-                    v = [rng.choice([0, 1, -1, 2, -2]) for _ in range(3)]
-                    if any(v):
-                        break
-                st["shift"] = v
+        case["kgrid"] = KGRID
+    dirs = []
+    while len(dirs) < rng.randint(1, 3):
+        d = gen_shift(rng, mode)
+        if d not in dirs:
+            dirs.append(d)
+    Dpool = [gen_D(rng, kdim) for _ in range(rng.choice([1, 1, 2]))]
+    rfs = [{"op": "T", "alpha": float(rng.choice([20, 35, 50, 70, 90, 110, 130, 155, 180])),
+            "phi": float(rng.choice([0, 15, 40, 90, 135, 200, 270]))} for _ in range(rng.randint(1, 3))]
+    taus = [float(F(rng.randint(8, 640), 8)) for _ in range(2)]
+    gD = [{"tau": rng.choice(taus), "D": rng.choice(Dpool)} for _ in dirs]       # the diffusion operator of each direction
+    free = {"op": "D", "tau": float(F(rng.randint(8, 400), 8)), "D": rng.choice(Dpool), "k": None}
+
+    def grad(i, dd):
+        return [{"op": "S", "k": dd[i]}, {"op": "D", "tau": gD[i]["tau"], "D": gD[i]["D"], "k": dd[i]}]
+
+    def build(dd):
+        r = rng_struct                                  # the structure is drawn once and replayed for ops2
+        ops = []
+        for item in r:
+            if item[0] == "T":
+                ops.append(rfs[item[1]])
+            elif item[0] == "G":
+                ops += grad(item[1], dd)
+            elif item[0] == "F":
+                ops.append(free)
             else:
-                while True:
-                    v = [rng.choice([0, 1, -1, 2, 3, -3, 5]) * 2500.0 * rng.choice([1, 1, 2, 0.5]) for _ in range(3)]
-                    if any(v):
-                        break
-                st["shift"] = v
-        st["tau"] = float(F(rng.randint(8, 640), 8))                      # ms
-        st["D"] = gen_D(rng, kdim)
-        have3d = have3d or st["shift"] is not None
-        # optional further gradient-free diffusion interval (D without k); a tensor D is only valid once the state
-        # matrix carries kdim-dimensional coordinates (D._apply rejects a dimension mismatch: fix 6403b86)
-        st["free"] = None
-        if st["shift"] is None or rng.random() < 0.3:
-            st["free"] = {"tau": float(F(rng.randint(8, 400), 8)), "D": gen_D(rng, kdim, scalar_only=(kdim == 3 and not have3d))}
-        case["steps"].append(st)
+                ops.append({"op": "D", "tau": item[1], "D": item[2], "k": None})
+        return ops
+    rng_struct = []
+    if rng.random() < 0.5:      # echo train [exc] + [grad, diff, (free), rf, (free), grad, diff] * n
+        n = rng.randint(1, 3 if mode == "1d" else 2)
+        usefree = rng.random() < 0.6
+        rng_struct.append(("T", 0))
+        for _ in range(n):
+            g = rng.randrange(len(dirs))
+            rng_struct += [("G", g)] + ([("F",)] if usefree else []) + [("T", rng.randrange(len(rfs)))] + ([("F",)] if usefree else []) + [("G", g)]
+    else:                       # pulse, optional gradient + diffusion, optional gradient-free interval
+        for _ in range(rng.randint(1, 4 if mode == "1d" else 3)):
+            rng_struct.append(("T", rng.randrange(len(rfs))))
+            had = False
+            if rng.random() < 0.8:
+                rng_struct.append(("G", rng.randrange(len(dirs))))
+                had = True
+            if not had or rng.random() < 0.3:
+                rng_struct.append(("F",) if rng.random() < 0.6 else ("X", float(F(rng.randint(8, 400), 8)), rng.choice(Dpool)))
+    case["ops"] = build(dirs)
+    case["ops2"] = None
+    if rng.random() < 0.6:
+        dirs2 = dirs[1:] + dirs[:1] if len(dirs) > 1 else [neg(dirs[0])]
+        case["ops2"] = build(dirs2)
     return case
 
 
-def gen_D(rng, kdim, scalar_only=False):
+def gen_D(rng, kdim):
     """scalar or symmetric positive semi-definite tensor (mm^2/s)"""
-    if scalar_only or rng.random() < 0.45:
+    if rng.random() < 0.45:
         return float(F(rng.randint(2, 48), 16)) * 1e-3
     a = np.array([[rng.randint(-4, 4) / 4 for _ in range(kdim)] for _ in range(kdim)])
     d = a @ a.T * 1e-3 * rng.choice([0.25, 0.5, 1.0])
@@ -72,27 +119,67 @@ def gen_D(rng, kdim, scalar_only=False):
     return d.tolist()
 
 
-def build_ops(case):
-    import epgpy as epg
-    ops = []
-    for st in case["steps"]:
-        ops.append(("T", epg.T(st["alpha"], st["phi"])))
-        if st["shift"] is not None:
-            k = st["shift"]
-            if case["mode"] == "1d":
-                ops.append(("S", epg.S(int(k))))
-                ops.append(("D", epg.D(st["tau"], dval(st["D"]), int(k)), st["tau"], st["D"], k))
-            else:
-                ka = np.array(k, dtype=int if case["mode"] == "3d-int" else float)
-                ops.append(("S", epg.S(ka, prune=0)))
-                ops.append(("D", epg.D(st["tau"], dval(st["D"]), ka), st["tau"], st["D"], k))
-        if st["free"] is not None:
-            ops.append(("D", epg.D(st["free"]["tau"], dval(st["free"]["D"])), st["free"]["tau"], st["free"]["D"], None))
-    return ops
-
-
 def dval(D):
     return D if isinstance(D, float) else np.array(D, dtype=float)
+
+
+def make_op(case, spec):
+    import epgpy as epg
+    kind, kdim = MODES[case["mode"]]
+    if spec["op"] == "T":
+        return epg.T(spec["alpha"], spec["phi"])
+    k = spec["k"]
+    if k is not None:
+        k = int(k) if case["mode"] == "1d" else np.array(k, dtype=int if kind == "int" else float)
+    if spec["op"] == "S":
+        return epg.S(k) if case["mode"] == "1d" else epg.S(k, prune=0)
+    return epg.D(spec["tau"], dval(spec["D"])) if k is None else epg.D(spec["tau"], dval(spec["D"]), k)
+
+
+def canon(v):
+    """hashable, byte-exact description of an attribute value"""
+    if isinstance(v, np.ndarray):
+        return ("ndarray", str(v.dtype), v.shape, v.tobytes())
+    if isinstance(v, dict):
+        return ("dict", tuple(sorted((repr(k), canon(x)) for k, x in v.items())))
+    if isinstance(v, (list, tuple)):
+        return (type(v).__name__, tuple(canon(x) for x in v))
+    if isinstance(v, (set, frozenset)):
+        return ("set", tuple(sorted(repr(x) for x in v)))
+    return ("val", type(v).__name__, repr(v))
+
+
+def attr_snapshot(op):
+    return {k: canon(v) for k, v in vars(op).items()}
+
+
+class Pool:
+    """operator objects of one case: equal specs are one object when the case shares operators"""
+
+    def __init__(self, case):
+        self.case, self.memo, self.objs = case, {}, []
+
+    def get(self, spec):
+        key = repr(sorted(spec.items(), key=lambda kv: kv[0]))
+        if self.case["share"] and key in self.memo:
+            return self.memo[key]
+        op = make_op(self.case, spec)
+        self.memo[key] = op
+        self.objs.append((spec, op, attr_snapshot(op)))
+        return op
+
+    def sequence(self, specs):
+        return [self.get(sp) for sp in specs]
+
+    def mutated(self):
+        """[(spec, changed attribute names)] for operators whose instance attributes differ from construction time"""
+        out = []
+        for spec, op, snap0 in self.objs:
+            now = attr_snapshot(op)
+            ch = sorted(k for k in set(now) | set(snap0) if now.get(k) != snap0.get(k))
+            if ch:
+                out.append((spec, ch))
+        return out
 
 
 def init_sm(case):
@@ -110,9 +197,11 @@ def snap(sm):
     return st, co
 
 
-def run_impl(case):
-    """apply operator by operator; record around every D: pre/post states, coords, and the (bL, bT, D) -> (DL, DT)
-    call of diffusion_operator (observed by wrapping the module-level function; /repo is not modified)"""
+def run_impl(case, specs, objs):
+    """apply operator by operator; record around every D: pre/post states, coords (after the application: D may set
+    up n-D coordinates), and the (bL, bT, D) -> (DL, DT) call of diffusion_operator (observed by wrapping the
+    module-level function; /repo is not modified).  A D application that does not go through diffusion_operator is
+    recorded as unobservable."""
     from epgpy import diffusion
     rec = []
     orig = diffusion.diffusion_operator
@@ -125,21 +214,21 @@ def run_impl(case):
     try:
         sm = init_sm(case)
         out = []
-        for o in build_ops(case):
-            if o[0] == "D":
-                pre, co = snap(sm)
+        for spec, op in zip(specs, objs):
+            if spec["op"] == "D":
+                pre, _ = snap(sm)
                 n0 = len(rec)
-                sm = o[1](sm)
-                post, _ = snap(sm)
-                if len(rec) != n0 + 1:
-                    raise RuntimeError("diffusion_operator was not called exactly once by D._apply")
-                bL, bT, DL, DT = rec[-1]
-                ns = pre.shape[0]
-                out.append({"tau": o[2], "D": o[3], "k": o[4], "pre": pre, "post": post, "coords": co,
-                            "bL": bL.reshape((-1, ns) + bL.shape[-2:])[0], "bT": bT.reshape((-1, ns) + bT.shape[-2:])[0],
-                            "DL": np.broadcast_to(DL, DL.shape).reshape(-1, ns)[0], "DT": DT.reshape(-1, ns)[0]})
+                sm = op(sm)
+                post, co = snap(sm)
+                d = {"tau": spec["tau"], "D": spec["D"], "k": spec["k"], "pre": pre, "post": post, "coords": co, "unobs": len(rec) != n0 + 1}
+                if not d["unobs"]:
+                    bL, bT, DL, DT = rec[-1]
+                    ns = pre.shape[0]
+                    d.update({"bL": bL.reshape((-1, ns) + bL.shape[-2:])[0], "bT": bT.reshape((-1, ns) + bT.shape[-2:])[0],
+                              "DL": DL.reshape(-1, ns)[0], "DT": DT.reshape(-1, ns)[0]})
+                out.append(d)
             else:
-                sm = o[1](sm)
+                sm = op(sm)
         final, co = snap(sm)
         return out, final, co
     finally:
@@ -324,45 +413,46 @@ def bD_quadrature(tau_ms, q1, q2, D):
     return tot * T / 2
 
 
-def pathway_oracle(case):
-    """explicit enumeration: one term per choice of component after each pulse; returns {(coords tuple): [F+, F-, Z]}"""
-    kdim = 1 if case["mode"] == "1d" else 3
+def pathway_oracle(case, specs):
+    """explicit enumeration: one term per choice of component after each RF pulse; returns {coords tuple: [F+, F-, Z]}"""
+    kdim = MODES[case["mode"]][1]
     kv = case["kvalue"]
-    steps = case["steps"]
-    comps = (0, 1, 2)
+    npulse = sum(1 for sp in specs if sp["op"] == "T")
     out = {}
-    for path in itertools.product(comps, repeat=len(steps)):
+    for path in itertools.product((0, 1, 2), repeat=npulse):
         amp = 1.0 + 0j
-        prev = 2                                  # equilibrium: Z
+        c = 2                                     # equilibrium: Z
         k = tuple(F(0) for _ in range(kdim))      # array index / coordinate of the state holding the pathway
-        for st, c in zip(steps, path):
-            amp *= rf_matrix(st["alpha"], st["phi"])[c, prev]
-            if amp == 0:
-                break
-            sgn = {0: 1, 1: -1, 2: 0}[c]
-            if st["shift"] is not None:
-                sh = [st["shift"]] if kdim == 1 else st["shift"]
-                sh = tuple(F(x) for x in sh)
-                knew = tuple(a + sgn * b for a, b in zip(k, sh))
+        kprev = k
+        j = 0
+        for sp in specs:
+            if sp["op"] == "T":
+                amp *= rf_matrix(sp["alpha"], sp["phi"])[path[j], c]
+                c = path[j]
+                j += 1
+                if amp == 0:
+                    break
+            elif sp["op"] == "S":
+                sh = (sp["k"],) if kdim == 1 else sp["k"]
+                sgn = {0: 1, 1: -1, 2: 0}[c]
+                kprev = k
+                k = tuple(a + sgn * F(b) for a, b in zip(k, sh))
+            else:
                 # physical wavenumber of the magnetisation: F-(k) is the conjugate of order -k
                 s = -1 if c == 1 else 1
-                q1 = [s * float(x) * kv for x in k]
-                q2 = [s * float(x) * kv for x in knew]
-                amp *= np.exp(-bD_quadrature(st["tau"], q1, q2, st["D"]))
-                k = knew
-            if st["free"] is not None:
-                qc_ = [float(x) * kv for x in k]
-                amp *= np.exp(-bD_quadrature(st["free"]["tau"], qc_, qc_, st["free"]["D"]))
-            prev = c
+                q2 = [s * float(x) * kv for x in k]
+                q1 = q2 if sp["k"] is None else [s * float(x) * kv for x in kprev]
+                amp *= np.exp(-bD_quadrature(sp["tau"], q1, q2, sp["D"]))
         else:
-            out.setdefault(k, [0j, 0j, 0j])[path[-1]] += amp
+            out.setdefault(k, [0j, 0j, 0j])[c] += amp
     return out
 
 
-def oracle_disagrees(case, final, coords):
-    ref = pathway_oracle(case)
+def oracle_disagrees(case, specs, final, coords):
+    ref = pathway_oracle(case, specs)
     ns = final.shape[0]
     n = (ns - 1) // 2
+    kdim = MODES[case["mode"]][1]
     impl = {}
     g = case["kgrid"]
     if g:       # gridded back-end: stored coordinates are binary64 multiples of the grid step; identify states by grid index
@@ -371,13 +461,14 @@ def oracle_disagrees(case, final, coords):
             raise RuntimeError("generator produced an off-grid shift")
     for i in range(ns):
         if coords is None:
-            key = (F(i - n),) + ((F(0), F(0)) if case["mode"] != "1d" else ())
+            key = (F(i - n),) + tuple(F(0) for _ in range(kdim - 1))
         elif g:
             key = tuple(F(round(float(x) / g)) for x in coords[i])
             if max(abs(float(x) / g - round(float(x) / g)) for x in coords[i]) > 1e-6:
                 return "stored coordinate %s is not on the grid" % (coords[i],)
         else:
             key = tuple(F(float(x)) for x in coords[i])
+        key = key + tuple(F(0) for _ in range(kdim - len(key)))
         if key in impl and np.abs(final[i]).max() > 0:
             return "two stored states share the coordinates %s" % (key,)
         impl.setdefault(key, final[i])
@@ -392,81 +483,133 @@ def oracle_disagrees(case, final, coords):
     return None
 
 
-def simulate_F0(case):
+def simulate_F0(case, objs):
     import epgpy as epg
-    seq = [o[1] for o in build_ops(case)] + [epg.ADC]
     opts = {"kvalue": case["kvalue"]}
     if case["kgrid"]:
         opts["kgrid"] = case["kgrid"]
-    f0, z0 = epg.simulate(seq, probe=["F0", "Z0"], **opts)
+    f0, z0 = epg.simulate(list(objs) + [epg.ADC], probe=["F0", "Z0"], **opts)
     return complex(np.ravel(f0)[0]), complex(np.ravel(z0)[0])
 
 
-def check_oracle(ctx, case, final, coords):
-    """returns a description of the discrepancy or None"""
-    why = oracle_disagrees(case, final, coords)
-    if why:
-        return why
-    ref = pathway_oracle(case)
-    zero = tuple(F(0) for _ in range(1 if case["mode"] == "1d" else 3))
+def simulate_disagrees(case, specs, objs, label):
+    ref = pathway_oracle(case, specs)
+    zero = tuple(F(0) for _ in range(MODES[case["mode"]][1]))
+    if case["kgrid"]:
+        pass                                   # the zero key is the same in grid units
     r0 = ref.get(zero, [0j, 0j, 0j])
-    f0, z0 = simulate_F0(case)
+    f0, z0 = simulate_F0(case, objs)
     e = max(abs(f0 - r0[0]), abs(z0 - r0[2]))
     if e > 1e-9 * (1 + abs(r0[0]) + abs(r0[2])):
-        return "simulate() F0/Z0 differ from the pathway sum by %.3g" % e
+        return "%s: simulate() F0/Z0 differ from the pathway sum by %.3g" % (label, e)
     return None
 
 
+def exercise(case, on_d=None):
+    """run one case on the implementation the way a user would: one pool of operator objects; sequence 1 operator by
+    operator, simulate() (twice), then sequence 2 on the SAME objects; every result against the pathway oracle;
+    finally the operators' instance attributes against their values at construction.
+    Returns (list of discrepancy strings, list of attribute mutations)."""
+    pool = Pool(case)
+    problems = []
+    for label, specs in (("sequence 1", case["ops"]), ("sequence 2 (same operator objects)", case.get("ops2"))):
+        if not specs:
+            continue
+        objs = pool.sequence(specs)
+        ds, final, coords = run_impl(case, specs, objs)
+        if on_d:
+            on_d(ds)
+        why = oracle_disagrees(case, specs, final, coords)
+        if why:
+            problems.append("%s, operator by operator: %s" % (label, why))
+        for rep in range(2 if case.get("twice") else 1):
+            why = simulate_disagrees(case, specs, objs, "%s, simulate() call %d" % (label, rep + 1))
+            if why:
+                problems.append(why)
+    muts = [(sp, ch) for sp, ch in pool.mutated() if sp["op"] == "D"]
+    return problems, muts
+
+
 def sig(case):
-    return {"mode": case["mode"], "npulse": len(case["steps"]),
-            "D": sorted({"scalar" if isinstance(s["D"], float) else "tensor" for s in case["steps"]})}
+    return {"mode": case["mode"], "npulse": sum(1 for sp in case["ops"] if sp["op"] == "T"), "share": case["share"],
+            "twice": case["twice"], "second_sequence": case["ops2"] is not None,
+            "D": sorted({"scalar" if isinstance(sp["D"], float) else "tensor" for sp in case["ops"] if sp["op"] == "D"})}
 
 
 # ------------------------------------------------------------------ main
 def run(ctx):
     proved = ctx.prove(gen=True)
     quick = ctx.tier == "quick"
-    ncase = 100 if quick else 1500
+    ncase = 75 if quick else 1200
     terms, owners, recorded = [], [], []
     dist = {}
     oracle_bad = set()
     attstat = {"total": 0, "in(0.01,0.99)": 0, ">1": 0}
-    noracle = 0
+    reuse = {"cases_sharing_objects": 0, "max_applications_of_one_D_object": 0, "second_sequence": 0, "simulate_twice": 0}
+    noracle = nunobs = 0
+    mut_reports = []
     for ci in range(ncase):
         case = gen_case(ctx.rng, quick)
+        unobs = []
+
+        def on_d(ds, case=case, unobs=unobs):
+            for d in ds:
+                if d["unobs"]:
+                    unobs.append(d)
+                    continue
+                terms.append(corr_term(case, d))
+                owners.append(case)
+                if len(recorded) < (24 if quick else 200) and ctx.rng.random() < 0.2:
+                    recorded.append((d, ctx.rng.randrange(len(d["DL"])), ctx.rng.choice(["L", "T"])))
+                for x in list(np.ravel(d["DT"])) + list(np.ravel(d["DL"])):
+                    attstat["total"] += 1
+                    attstat["in(0.01,0.99)"] += 0.01 < float(np.real(x)) < 0.99
+                    attstat[">1"] += float(np.real(x)) > 1
         try:
-            ds, final, coords = run_impl(case)
+            problems, muts = exercise(case, on_d)
         except Exception as e:
             ctx.report("implementation raised %s on a valid sequence: %s" % (type(e).__name__, str(e)[:200]), {"case": case},
                        found_input=True, signature={"raises": type(e).__name__, "mode": case["mode"]})
             continue
-        key = "%s/%d" % (case["mode"], len(case["steps"]))
+        key = "%s/%d" % (case["mode"], sig(case)["npulse"])
         dist[key] = dist.get(key, 0) + 1
-        for d in ds:
-            terms.append(corr_term(case, d))
-            owners.append(case)
-            for x in list(np.ravel(d["DT"])) + list(np.ravel(d["DL"])):
-                attstat["total"] += 1
-                attstat["in(0.01,0.99)"] += 0.01 < float(np.real(x)) < 0.99
-                attstat[">1"] += float(np.real(x)) > 1
-            if len(recorded) < (24 if quick else 200):
-                i = ctx.rng.randrange(len(d["DL"]))
-                recorded.append((d, i, ctx.rng.choice(["L", "T"])))
-        ctx.count(case, nontrivial=len(case["steps"]) >= 2)
-        ctx.sample({"case": sig(case), "kvalue": case["kvalue"], "nstates_final": int(final.shape[0])})
-        # spec oracle: supporting evidence and failing-input search in one
-        try:
-            why = check_oracle(ctx, case, final, coords)
-        except Exception as e:
-            why = "simulate() raised %s: %s" % (type(e).__name__, str(e)[:200])
+        if case["share"]:
+            reuse["cases_sharing_objects"] += 1
+            cnt = {}
+            for sp in case["ops"] + (case["ops2"] or []):
+                if sp["op"] == "D":
+                    cnt[repr(sp)] = cnt.get(repr(sp), 0) + 1
+            reuse["max_applications_of_one_D_object"] = max([reuse["max_applications_of_one_D_object"]] + list(cnt.values()))
+        reuse["second_sequence"] += case["ops2"] is not None
+        reuse["simulate_twice"] += bool(case["twice"])
+        ctx.count(case, nontrivial=sig(case)["npulse"] >= 2)
+        ctx.sample({"case": sig(case), "kvalue": case["kvalue"], "nops": len(case["ops"])})
         noracle += 1
-        if why:
+        # spec oracle: supporting evidence and failing-input search in one
+        if problems:
             oracle_bad.add(id(case))
-            ctx.report("states differ from the explicit sum over coherence pathways with exp(-int k^T D k dt): " + why,
-                       {"case": case}, found_input=True, signature={"oracle": "pathway-sum", "mode": case["mode"]})
+            ctx.report("states differ from the explicit sum over coherence pathways with exp(-int k^T D k dt): " + "; ".join(problems[:3]),
+                       {"case": case, "discrepancies": problems}, found_input=True,
+                       signature={"oracle": "pathway-sum", "mode": case["mode"], "shared_objects": case["share"]})
+        if muts:
+            mut_reports.append((case, muts))
+        if unobs:
+            nunobs += len(unobs)
+            if id(case) not in oracle_bad and not muts:
+                ctx.report("a D application did not compute its factors through compute_bmatrix / diffusion_operator: the b-matrix correspondence cannot be checked for it",
+                           {"case": case, "theorem_or_correspondence": "C05 correspondence Model/Diffusion.v vs epgpy.diffusion.D._apply"}, found_input=False)
+    # operator-instance mutations: reported after the numerical discrepancies (at most 5 replay files)
+    for case, muts in mut_reports[:5]:
+        attrs = sorted({a for _, ch in muts for a in ch})
+        ctx.report("applying a D operator changed its instance attributes %s (operators must be reusable: the result may now depend on the call history); %d of %d cases" % (attrs, len(mut_reports), noracle),
+                   {"case": case, "mutated": [{"spec": sp, "attributes": ch} for sp, ch in muts]}, found_input=True,
+                   signature={"mutates": "D", "attributes": attrs})
+    ctx.cov["D_instance_mutations"] = len(mut_reports)
     ctx.cov["oracle_runs"] = noracle
     ctx.notes["case_distribution"] = dist
     ctx.notes["attenuation_factors"] = attstat
+    ctx.notes["operator_reuse"] = reuse
+    ctx.cov["unobservable_D_applications"] = nunobs
     verdicts, errors = ctx.run_bool_cases("corr", CORR_HEADER, terms, chunk=12)
     for e in errors:
         ctx.report("correspondence shard failed to evaluate", {"theorem_or_correspondence": "C05 correspondence (Cases)", "coq_output": e}, found_input=False)
@@ -488,7 +631,7 @@ def run(ctx):
         "observation of the b-matrices by wrapping epgpy.diffusion.diffusion_operator at run time",
         "the n-D / gridded shift back-ends are NOT modelled here (C04): the correspondence takes the coordinates they produce as input",
         "Coquelicot + Interval libraries; axioms as printed by Print Assumptions (classical reals, functional extensionality, classic)"]
-    ctx.notes["observation_tensor_D_before_first_shift"] = probe_fresh_tensor()
+    ctx.notes["tensor_D_before_first_shift"] = probe_fresh_tensor()
     if not proved and not ctx.violations:
         ctx.report("proof obligations of C05 no longer check: %s" % ctx.failed_obligations,
                    {"theorem_or_correspondence": ctx.failed_obligations}, found_input=False)
@@ -497,9 +640,8 @@ def run(ctx):
 
 
 def probe_fresh_tensor():
-    """recorded, not judged here (reported to the lead): a 3x3 tensor D in a gradient-free interval BEFORE the first
-    3-D shift meets a state matrix without coordinates (kdim 1); since fix 6403b86 D._apply rejects it, although the
-    physical answer is well defined (k = 0: no attenuation).  The generator keeps such intervals scalar."""
+    """record: a 3x3 tensor D in a gradient-free interval BEFORE the first 3-D shift (accepted since fix ea71fde; the
+    generator produces such sequences and the oracle judges them)"""
     import epgpy as epg
     Dt = np.diag([1e-3, 2e-3, 3e-3])
     seq = [epg.T(90, 0), epg.D(10.0, Dt), epg.S(np.array([1, 0, 2])), epg.D(10.0, Dt, np.array([1, 0, 2])), epg.ADC]
@@ -514,11 +656,11 @@ def replay(ctx, rp):
     if "case" in rp:
         case = rp["case"]
         try:
-            ds, final, coords = run_impl(case)
-            why = check_oracle(ctx, case, final, coords)
+            problems, muts = exercise(case)
+            why = "; ".join(problems + ["D operator attributes changed: %s" % ch for _, ch in muts])
         except Exception as e:
             why = "raised %s: %s" % (type(e).__name__, e)
-        print("replay:", why or "no discrepancy with the pathway-sum oracle")
+        print("replay:", why or "no discrepancy with the pathway-sum oracle, operators unchanged")
         return 1 if why else 0
     print("replay: not an input replay (%s)" % rp.get("what"))
     return 1
